@@ -159,6 +159,20 @@ func (d *Decoder) decodeValue(value reflect.Value) {
 		return
 	}
 	if m, ok := value.Interface().(Unmarshaler); ok {
+		// objects with custom unmarshalers (msg_container, gzip_packed) expect that crc is read already, like
+		// decodeRegisteredObject does. Bare types (int128, int256) are not objects and doesn't have crc at all
+		if o, isObject := value.Interface().(Object); isObject {
+			crcCode := d.PopCRC()
+			if d.err != nil {
+				d.err = errors.Wrap(d.err, "read crc")
+				return
+			}
+			if crcCode != o.CRC() {
+				d.err = fmt.Errorf("invalid crc code: %#v, want: %#v", crcCode, o.CRC())
+				return
+			}
+		}
+
 		err := m.UnmarshalTL(d)
 		if err != nil {
 			d.err = err
